@@ -4,20 +4,31 @@
 #define TETL_VARIANT_VARIANT_ALTERNATIVE_SELECTOR_HPP
 
 #include <etl/_type_traits/declval.hpp>
+#include <etl/_utility/forward.hpp>
 #include <etl/_variant/overload.hpp>
 
 namespace etl::detail {
 
 template <typename T>
+struct variant_alternative_selector_array {
+    T x[1];
+};
+
+// An alternative Ti is a candidate for a source of type T only if "Ti x[] = {etl::forward<T>(t)};"
+// is well-formed, i.e. narrowing conversions do not take part (P0608R3).
+template <typename Ti>
 struct variant_alternative_selector_single {
-    auto operator()(T /*t*/) const -> T;
+    template <typename T>
+        requires requires(T&& t) { variant_alternative_selector_array<Ti>{{etl::forward<T>(t)}}; }
+    auto operator()(Ti /*t*/, T&& /*u*/) const -> Ti;
 };
 
 template <typename... Ts>
 inline constexpr auto variant_alternative_selector = etl::overload{variant_alternative_selector_single<Ts>{}...};
 
 template <typename T, typename... Ts>
-using variant_alternative_selector_t = decltype(variant_alternative_selector<Ts...>(etl::declval<T>()));
+using variant_alternative_selector_t
+    = decltype(variant_alternative_selector<Ts...>(etl::declval<T>(), etl::declval<T>()));
 
 } // namespace etl::detail
 
